@@ -744,10 +744,14 @@ def run_teardown(case):
 
 
 # ====================================================================================== handle re-use right after a disconnection
+async def _await(arm, loop):
+    return await arm(loop.create_future())
+
+
 def gen_reuse(rng, tier, seed):
     return {'profile': rng.choice(['burst', 'burst', 'burst-radio', 'zero', 'lan']), 'adv_delay': rng.choice([0.0, 0.0, 0.001, 0.004]),
             'disc_delay': rng.choice([0.0, 0.0, 0.001]), 'indicate': rng.random() < 0.5, 'who': rng.choice(['client', 'client', 'server']),
-            'stall': rng.random() < 0.8, 'stall_s': rng.choice([0.05, 0.2, 0.5])}
+            'stall': rng.random() < 0.8, 'stall_s': rng.choice([0.05, 0.2, 0.5]), 'stale_op': rng.choice([None, 'encrypt', 'update_parameters', 'features', 'waiter'])}
 
 
 def run_reuse(case):
@@ -822,6 +826,19 @@ def run_reuse(case):
         sim.loop.settle(vt_budget=2.0)
         if any(p[:1] in (b'\x1b', b'\x1d') for p in got2):
             sim.violation_once('cross', f'notification-to-a-peer-that-never-subscribed:after-handle-reuse={int(reused)}', f'N2 received {[p.hex() for p in got2][:2]}')
+        # an application that still holds the OLD connection object starts something on it: the object knows it is disconnected,
+        # whatever the handle now names, so the call ends at once with an error or cancellation
+        stale_op = case.get('stale_op')
+        if stale_op and srv.connections.get(old_handle) is not cs:
+            coro = {'encrypt': lambda: cs.encrypt(), 'update_parameters': lambda: cs.update_parameters(30.0, 50.0, 0, 4000.0),
+                    'features': lambda: cs.get_remote_le_features(), 'waiter': lambda: _await(cs.cancel_on_disconnection, sim.loop)}[stale_op]()
+            st, t = sim.run(coro, 40.0)
+            sim.probe('operation_started_on_the_closed_connection_object')
+            if st != 'done':
+                sim.violation_once('stale-op', f'waiter-left-hanging:{stale_op}:on-closed-connection-object:handle-reused={int(reused)}', describe_task(t))
+                t.cancel()
+            elif not t.cancelled() and t.exception() is None and stale_op != 'features':
+                sim.violation_once('stale-op-ok', f'operation-on-closed-connection-succeeded:{stale_op}:handle-reused={int(reused)}', 'it can only have acted on the new connection')
         sim.trace.shape(case['who'], reused, case['indicate'], case['profile'], case.get('stall'), case.get('stall_s'), case['adv_delay'], case['disc_delay'])
         return result(sim, nontrivial=reused)
     finally:
